@@ -91,6 +91,31 @@ def main(job_path):
         if job.get("kill_after"):
             model.kill_after = int(job["kill_after"])
             model.kill_hook = mon.flush
+        if job.get("prelude"):
+            # another (small, unrelated) run of the other sampler happens in
+            # this process first: whatever it leaves behind in module-level
+            # state must not reach the run under test
+            phase = "prelude"
+            pre_model = make_model({"name": "gauss_uniform", "dims": 4,
+                                    "lo": -3.0, "hi": 3.0})
+            pre_ins = not bool(job.get("ins"))
+            pre_kw = dict(
+                nlive=100, min_samples=30, max_iteration=2, seed=99,
+                plot=False, checkpointing=False,
+                flow_config={"n_blocks": 2, "n_neurons": 8},
+                training_config={"max_epochs": 30, "patience": 10},
+            ) if pre_ins else dict(
+                nlive=50, max_iteration=160, seed=99, plot=False,
+                checkpointing=False, maximum_uninformed=60,
+                flow_config={"n_blocks": 2, "n_neurons": 8},
+                training_config={"max_epochs": 10, "patience": 5},
+            )
+            pre = FlowSampler(
+                pre_model, output=job["output"].rstrip("/") + "_prelude",
+                importance_nested_sampler=pre_ins, resume=False, **pre_kw)
+            pre.run(plot=False)
+            pre_model.close_pool()
+            mon.classes.add("after-another-run-in-the-process")
         phase = "construct"
         kwargs = M.decode_kwargs(job.get("kwargs", {}), mon)
         fs = FlowSampler(
